@@ -123,6 +123,9 @@ def r_path(typ, steps):
         import re
         if not re.match(r"^[a-zA-Z_][a-zA-Z0-9_]*$", name):
             name = "'" + name.replace("\\", "\\\\").replace("'", "\\'") + "'"
+        if st["s"] == "idx2":            # a further index directly on an indexed step (the grammar admits it)
+            out[-1] += "[%s]" % st["i"]
+            continue
         out.append(name + ("[%s]" % st["i"] if st["s"] == "idx" else ""))
     return typ + ":" + ".".join(out)
 
@@ -261,6 +264,52 @@ def rand_oexpr(rng, depth, vocab=True, pool=None):
         inner = o if o["k"] == "obs" else {"k": "paren", "e": o}
         o = {"k": "qual", "e": inner, "q": q}
     return o
+
+
+def corner_asts():
+    """fixed (not sampled) corners of the grammar: grouping repeated and around single operands at both levels, comparison operands of different object types
+    under one boolean operator (flattened nesting included), path steps whose names need quoting for every reason the grammar has (first / later / indexed)"""
+    def c(typ, name, v=1):
+        return {"k": "cmp", "type": typ, "path": [{"s": "key", "name": name, "i": ""}], "prop": name, "op": "=", "neg": False, "const": I(v)}
+
+    def P(e):  # noqa
+        return {"k": "paren", "e": e}
+
+    def O(e):  # noqa
+        return {"k": "obs", "e": e}
+
+    def OR(*a):  # noqa
+        return {"k": "or", "args": list(a)}
+
+    def AND(*a):  # noqa
+        return {"k": "and", "args": list(a)}
+    import copy
+    within = {"k": "within", "n": 0, "s": 10, "t1": I(0), "t2": I(0)}
+    x, y, z = c("a", "b", 1), c("a", "c", 2), c("a", "d", 3)
+    out = [("group", g) for g in (
+        O(P(x)), O(P(P(x))), O(P(OR(x, y))), O(P(P(OR(x, y)))), O(P(P(P(AND(x, y))))), O(AND(P(P(OR(x, y))), z)), O(OR(P(P(AND(x, y))), z)), O(AND(P(x), P(y))), O(AND(P(P(x)), y)),
+        P(O(x)), P(P(O(x))), P(P({"k": "oand", "args": [O(x), O(y)]})), {"k": "oor", "args": [P(P(O(x))), O(P(P(y)))]},
+        {"k": "fb", "args": [O(x), {"k": "qual", "e": O(P(P(OR(y, z)))), "q": within}]}, {"k": "qual", "e": P(P({"k": "oand", "args": [O(x), O(y)]})), "q": within},
+        {"k": "qual", "e": P({"k": "qual", "e": O(P(x)), "q": within}), "q": {"k": "repeats", "n": 2, "s": 0, "t1": I(0), "t2": I(0)}})]
+    a1, b1, c1, c2 = c("a", "x", 1), c("b", "y", 2), c("c", "z", 3), c("c", "w", 4)
+    out += [("mixed_types", g) for g in (
+        O(OR(a1, b1)), O(OR(a1, b1, c1)), O(AND(P(OR(a1, c1)), c2)), O(AND(P(OR(a1, b1, c1)), c2)), O(AND(c2, P(OR(a1, b1, c1)))), O(AND(P(OR(a1, P(OR(b1, c1)))), c2)),
+        O(AND(P(OR(P(OR(a1, b1)), c1)), c2)), O(OR(a1, AND(c1, c2), b1)), O(OR(a1, P(AND(c1, c2, P(OR(b1, c1)))))), O(AND(P(OR(b1, c1)), P(OR(c2, a1)))),
+        O(AND(P(OR(a1, b1, c1)), P(OR(b1, c2, c1)), c2)))]
+    for name in ["b c", "b.c", "", "it's", "back\\slash", "0start", "\u00fcn\u00ef", "a-b", "a[0]", "x:y", "'", "AND", "b_ref"]:
+        for how, steps in (("first", [{"s": "key", "name": name, "i": ""}]), ("later", [{"s": "key", "name": "k", "i": ""}, {"s": "key", "name": name, "i": ""}]),
+                           ("middle", [{"s": "key", "name": "k", "i": ""}, {"s": "key", "name": name, "i": ""}, {"s": "key", "name": "m", "i": ""}]),
+                           ("indexed_first", [{"s": "idx", "name": name, "i": "1"}]), ("indexed_later", [{"s": "key", "name": "k", "i": ""}, {"s": "idx", "name": name, "i": "*"}])):
+            g = c("x-t", "k")
+            g["path"], g["prop"] = copy.deepcopy(steps), name if how == "first" else "*"
+            out.append(("quoted_step:" + how, O(g)))
+    # an index directly on an indexed step: only totality and the text round trip are judged (the model classes have no agreed representation for it)
+    for steps in ([{"s": "idx", "name": "a", "i": "1"}, {"s": "idx2", "name": "", "i": "2"}],
+                  [{"s": "key", "name": "k", "i": ""}, {"s": "idx", "name": "b", "i": "*"}, {"s": "idx2", "name": "", "i": "0"}, {"s": "key", "name": "c", "i": ""}]):
+        g = c("x-t", "k")
+        g["path"], g["prop"] = copy.deepcopy(steps), "*"
+        out.append(("consecutive_indices", O(g)))
+    return out
 
 
 def in_vocab(a):
